@@ -41,7 +41,7 @@ Definition oel_eqb (a b : option elk) : bool :=
 Definition det_eqb (a b : detected) : bool :=
   oabs_eqb (dt_abs a) (dt_abs b) && oel_eqb (dt_elim a) (dt_elim b)
   && Nat.eqb (dt_transits a) (dt_transits b) && oname_eqb (dt_depot a) (dt_depot b)
-  && Nat.eqb (dt_periph a) (dt_periph b) && Bool.eqb (dt_lag a) (dt_lag b).
+  && Nat.eqb (dt_periph a) (dt_periph b) && Bool.eqb (dt_lag a) (dt_lag b) && Bool.eqb (dt_bio a) (dt_bio b).
 
 Definition tag (b : bool) (t : nat) : list nat := if b then [] else [t].
 
@@ -84,7 +84,7 @@ Definition guard_tags (f : req) (s : sk) : list nat :=
   ++ tag (g_seq_depot_dosed f s) 54 ++ tag (g_zo_depot_dosed f s) 55 ++ tag (g_fo_no_chain f s) 56
   ++ tag (g_fo_seq_chain f s) 57 ++ tag (g_fo_keeps_lag f s) 58 ++ tag (g_no_param_clash f s) 59
   ++ tag (g_transit_no_lag f s) 60 ++ tag (g_no_single_transit f s) 61 ++ tag (g_periph_le9 f s) 62
-  ++ tag (g_rem_periph_rates f s) 63.
+  ++ tag (g_rem_periph_rates f s) 63 ++ tag (g_keeps_bio f s) 64.
 
 
 (* the property itself, on the implementation's own outputs *)
